@@ -58,6 +58,11 @@ def db(F, R):
             if not any('powf' in c for c in calls) or not zero_test or not sil_test:
                 ok = False
                 why = 'the general branch does not come after both special-case tests'
+            elif ret.replace('(*self)', 'self') not in ('std::f32::<impl f32>::powf(10.0, Div(self.0, 20.0))',
+                                                        'std::f32::<impl f32>::powf(10.0, Mul(0.05, self.0))'):
+                # "otherwise agrees with 10^(dB/20)": the general branch IS that power, not that power shaped further
+                ok = False
+                why = 'the general branch returns %s, not 10^(dB/20)' % ret[:120]
     if seen != {'unity', 'silence', 'powf'}:
         ok = False
         why = why or 'branches found: %s' % sorted(seen)
